@@ -1,7 +1,7 @@
 //! C14 — `key generate` into an existing keyring keeps every key (E-GRAPH over command histories via E-PROC).
 use crate::c17::{classify, Class};
 use crate::fx::Party;
-use crate::keyring::Keyring;
+use crate::kra;
 use crate::proc::{self, Cmd, Scratch};
 use crate::refspec as r;
 use crate::report::Report;
@@ -86,10 +86,15 @@ fn step(ctx: &Ctx, h: &Hist) -> Result<Option<Vec<u8>>, String> {
     }
     // 2. parses (real parser and REF's reading)
     let text = String::from_utf8(after.clone()).map_err(|_| "keyring is not UTF-8 after key generate".to_string())?;
-    let kr = match guarded(|| Keyring::new(&text)) {
-        Ok(Ok(k)) => k,
-        Ok(Err(e)) => return Err(format!("the file no longer parses as a keyring: {}", e)),
-        Err(m) => return Err(format!("parser panicked: {}", m)),
+    // (the real parser in-process when the seam is available; otherwise REF's reading alone, the CLI having written the file)
+    let kr = if kra::AVAILABLE {
+        match guarded(|| kra::parse(&text)) {
+            Ok(Ok(k)) => Some(k),
+            Ok(Err(e)) => return Err(format!("the file no longer parses as a keyring: {}", e)),
+            Err(m) => return Err(format!("parser panicked: {}", m)),
+        }
+    } else {
+        None
     };
     let entries = match classify(&text) {
         Class::WellFormed(e) => e,
@@ -102,17 +107,23 @@ fn step(ctx: &Ctx, h: &Hist) -> Result<Option<Vec<u8>>, String> {
         if written.len() != 1 {
             return Err(format!("the appended text does not contain exactly one 'Name = ' line: {:?}", appended));
         }
-        if kr.get_key(written[0]).is_none() {
+        let has = match &kr {
+            Some(k) => k.get_key(written[0]).is_some(),
+            None => entries.iter().any(|e| e.name == written[0]),
+        };
+        if !has {
             return Err(format!("the name was written as {:?} but the keyring has no entry under that name (it does not read back as written)", written[0]));
         }
     }
     // 3. every key generated so far is present and usable with its own password
     for (gi, &(n, p)) in h.gens.iter().enumerate() {
         let name = NAMES[n as usize].trim();
-        let k = kr.get_key(name).ok_or(format!("key '{}' (generated by command {}) is no longer in the keyring", name, gi + 1))?;
-        let e = entries.iter().find(|e| e.name == name).ok_or(format!("REF: key '{}' missing", name))?;
-        if k.public_key.as_str() != e.pk {
-            return Err("real parser and REF disagree on an entry".into());
+        let e = entries.iter().find(|e| e.name == name).ok_or(format!("key '{}' (generated by command {}) is no longer in the keyring (REF's reading)", name, gi + 1))?;
+        if let Some(kr) = &kr {
+            let k = kr.get_key(name).ok_or(format!("key '{}' (generated by command {}) is no longer in the keyring", name, gi + 1))?;
+            if k.pk != e.pk {
+                return Err("real parser and REF disagree on an entry".into());
+            }
         }
         let sk_str = e.sk.as_ref().ok_or(format!("generated key '{}' has no PrivateKey line", name))?;
         let blob = r::b64_decode(sk_str).ok_or("PrivateKey not base64")?;
